@@ -134,7 +134,8 @@ def judge(res, results, status_table=None):
                 res.fail('error-not-reported', c.line[:300], head, None, 'C04: Server::process returned Ok although the handler/read failed')
 
 def firstword(raw):
-    try: return raw.split(b' ', 1)[0].decode('ascii').strip().upper()
+    # HTTP methods are case-sensitive (RFC 9110 9.1): `OPTIOnS` is not OPTIONS, the bodiless clause does not apply to it
+    try: return raw.split(b' ', 1)[0].decode('ascii').strip()
     except Exception: return '?'
 
 def run(res, tier, seed):
